@@ -11,6 +11,10 @@ tables the model needs (`q_atom == t_atom`, `q_bond == t_bond`) are evaluated wi
 here depends on C08.  The linearisation of the real `_compile_query` is checked relationally (R) by the proved Lean checker
 `checkCompiled`, so a rewrite that visits neighbours in another order is still accepted.
 
+Stereo: `Model/IsoStereo.lean` mirrors the post-filter of `QueryIsomorphism.get_mapping`, `get_fast_mapping` and the
+`match_stereo=True` glue; `GS`/`FM`/`MS`/`IC` requests compare them with the real code (exception classes included) and apply the
+proved checker `isoCheck` to the real `get_fast_mapping` output.
+
 Search: an independent reference enumerator (plain backtracking over the declarative conditions; on targets <= 9 atoms
 additionally all injections) run against the real code only.
 """
@@ -27,17 +31,28 @@ LEVEL_TEXT = ('The matcher is modelled function by function in Lean (query linea
               'declarative specification IsEmbedding (get_mapping_exact), one per image set with the filter (get_mapping_filtered); '
               'the DFS compiler, the stack machine (= recursive enumerator), lazy_product and permutations each have their own '
               'theorem. The model is tied to the working tree by differential execution against the real pure-Python matcher on '
-              'structured cases compared as multisets, with atom/bond compatibility evaluated by the model from attributes. Proof is '
-              'the right level because the property is a universally quantified statement about a search algorithm.')
+              'structured cases compared as multisets, with atom/bond compatibility evaluated by the model from attributes. The stereo '
+              'post-filter of QueryIsomorphism.get_mapping is modelled statement by statement on top of property C12\'s sign-translation '
+              'model and proved: it only removes mappings (sub-list, order kept), keeps exactly the embeddings on which every marked '
+              'atom / bond passes, passes = label xor permutation parity (tetrahedron) resp. flip rule (double bond, allene) equals the '
+              'mark, leaves mark-free queries untouched (get_mapping_stereo_exact), is invariant under mark-preserving automorphisms; '
+              'get_fast_mapping / match_stereo glue are modelled, the real get_fast_mapping output is checked by a proved isomorphism '
+              'checker. Proof is the right level because the property is a universally quantified statement about a search algorithm.')
 LEVEL_NOTE = ('Trusted: the hand transcription Model/Iso.lean (validated by K, not derived from the Python text), the harness '
               '(wire encoding, canonicalisation, compatibility tables computed with the real __eq__), Lean kernel. Atom/bond '
-              'equality semantics are parameters (C08). The Cython matcher and the stereo post-filter are outside the model.')
-TECHNIQUE = 'Lean 4 theorems about an executable model of the matcher + differential execution model vs real get_mapping (multisets) + proved relational checker for the query linearisation'
+              'equality semantics are parameters (C08). The target\'s stereo tables (stereogenic_*, _stereo_*_terminals) and the SMILES atom '
+              'orders / whole-molecule equality used by get_fast_mapping are inputs read from the real objects (C12 / C02 territory). '
+              'The Cython matcher is outside the model (its result is compared with the python path).')
+TECHNIQUE = 'Lean 4 theorems about an executable model of the matcher and of the stereo post-filter + differential execution model vs real get_mapping (multisets, exception classes) + proved relational checkers (query linearisation, get_fast_mapping output) + independent stereo oracle'
 RULE = ('cases = (pattern, target, automorphism_filter, scope): patterns cut from the target (induced and with a ring bond removed), '
         'fragments from other molecules, every SMARTS literal found in the repo source, multi-component patterns and targets, '
         'random/empty/partial scopes, exhaustive small graphs, automorphism groups, lazy_product/permutations on random lists; '
+        'stereo-marked SMARTS (@, @@, / and \\: tetrahedra with 4/3/2 listed neighbours, double bonds, cumulenes, allenes) and marked queries '
+        'cut from labelled molecules against labelled targets, mirror images, E/Z partners and unlabelled molecules; labelled '
+        'molecule pairs through match_stereo=True and get_fast_mapping; '
         'a case is non-trivial when the target has at least one root candidate for the pattern; distinct by the full wire line')
-TRUSTED = ['Model/Iso.lean is a hand transcription of isomorphism.py/_functions.py (validated by correspondence)',
+TRUSTED = ['Model/Iso.lean and Model/IsoStereo.lean are hand transcriptions of isomorphism.py/_functions.py (validated by correspondence)',
+           'Model/Stereo.lean (property C12) for the sign translation; the stereo tables of the target are read from the real object',
            'harness/props/c07.py: wire encoding, compatibility tables via the real __eq__, multiset canonicalisation',
            'Spec/Embedding.lean written from the property statement']
 ASSUMPTIONS = ['generators share no mutable state, so a generator is modelled as the list of what it yields',
@@ -92,7 +107,9 @@ def run_history(steps):
                 list(itertools.islice(q.get_mapping(p, automorphism_filter=af, **kw), 3))
         elif op == 'touch':         # fill the caches other uses of the object fill (printing, components, rings, orders)
             for attr in ('connected_components', 'sssr', 'atoms_order', 'rings_count', '_compiled_query',
-                         '_cython_compiled_structure', 'connected_components_count'):
+                         '_cython_compiled_structure', 'connected_components_count', 'stereogenic_tetrahedrons',
+                         'stereogenic_allenes', 'stereogenic_cis_trans', '_stereo_cis_trans_terminals', '_stereo_allenes_terminals',
+                         '_stereo_cis_trans_centers', '_chiral_morgan', 'smiles_atoms_order'):
                 try:
                     getattr(p, attr)
                 except Exception:
@@ -1385,8 +1402,6 @@ def gen_cases(ctx):
             pq = make_pattern(pspec)
         except Exception:
             continue
-        if is_query(pq) and has_query_stereo(pq):
-            continue
         done = 0
         for tag, m in rng.sample(pert_pool, min(len(pert_pool), 10)):
             try:
@@ -1418,7 +1433,11 @@ def gen_cases(ctx):
     q_pool = [x for x in (sm + HAND_SMARTS) if '.' not in x and '|' not in x and '@' not in x.replace(';@', '').replace(';!@', '')]
     m_pool = [sx for sx, _ in frags if '.' not in sx]
 
+    q_stereo = [x for sm_ in STEREO_SMARTS for x in both_marks(sm_) if '.' not in x and len(x) > 6]
+
     def rand_spec(query):
+        if query and rng.random() < 0.2:
+            return {'smarts': rng.choice(q_stereo)}
         return {'smarts': rng.choice(q_pool)} if query else {'mol': wire.mol_to_ints(molgen.parse(rng.choice(m_pool)))}
 
     def rand_tail(obj, query, as_target=False):
@@ -1452,8 +1471,6 @@ def gen_cases(ctx):
             obj = make_pattern(base)
         except Exception:
             continue
-        if is_query(obj) and has_query_stereo(obj):
-            continue
         # a target the fresh pattern really matches (selection only), so that its first search yields mappings
         def hits(pat, cands):
             kw = {'_cython': False} if is_query(pat) else {}
@@ -1464,7 +1481,11 @@ def gen_cases(ctx):
                 except Exception:
                     pass
             return None
-        h0 = hits(obj, rng.sample(pool, min(len(pool), 15)))
+        if is_query(obj) and has_query_stereo(obj):
+            lab = [(x, molgen.parse(x)) for x in rng.sample(STEREO_TARGETS, 12)]
+            h0 = hits(obj, [c for c in lab if c[1] is not None])
+        else:
+            h0 = hits(obj, rng.sample(pool, min(len(pool), 15)))
         if h0 is None:
             ii = instantiate(obj)
             h0 = ('instance', make_target(ii)) if ii is not None else rng.choice(pool)
@@ -1505,7 +1526,11 @@ def gen_cases(ctx):
     # bonds and the labels change — bridges of every bond order incl. coordination (8) bonds removed, components joined by a new
     # bond, atoms removed — and then searched with one- and several-component patterns cut from the final structure
     bridged = ['CC(=O)[O-]~[Na+]', 'C[O-]~[Na+]', '[Cl-]~[Na+]', 'N~[Cu]~N', 'CC(=O)O~[Fe]~OC(C)=O', 'c1ccccc1~[Cr]', 'O~O',
-               'CCO~[Li]', 'CC(=O)[O-]~[K+].O', 'CO~[Mg]~OC.C', 'CC=O', 'CC#N', 'c1ccccc1C', 'CCOC', 'C1CC1C', 'CC.O', 'NCCO.CC']
+               'CCO~[Li]', 'CC(=O)[O-]~[K+].O', 'CO~[Mg]~OC.C', 'CC=O', 'CC#N', 'c1ccccc1C', 'CCOC', 'C1CC1C', 'CC.O', 'NCCO.CC',
+               # labelled targets: the stereo tables the post-filter reads are cached on the target and must follow its edits
+               'F[C@](Cl)(Br)I', 'C[C@H](N)C(=O)O', 'F/C=C/F', 'FC=[C@]=CCl', 'C[C@@H](O)[C@H](N)C(=O)O', 'F/C(Cl)=C/Br']
+    n_bridged = len(bridged)
+    stereo_sms = [x for sm_ in STEREO_SMARTS for x in both_marks(sm_) if '.' not in x]
     tbases = [(x, molgen.parse(x)) for x in bridged]
     tbases = [(x, m) for x, m in tbases if m is not None] + [x for x in hand if 2 <= len(x[1]) <= 12][:20] + targets[:6]
 
@@ -1562,7 +1587,7 @@ def gen_cases(ctx):
         return out
 
     _state['final_patterns'] = final_patterns
-    for tag0, m0 in (tbases if not quick else tbases[:17] + rng.sample(tbases[17:], 5)):
+    for tag0, m0 in (tbases if not quick else tbases[:n_bridged] + rng.sample(tbases[n_bridged:], 5)):
         tin = wire.mol_to_ints(m0)
         try:
             obj = make_target(tin)
@@ -1572,6 +1597,8 @@ def gen_cases(ctx):
             continue
         for tail in (tails if not quick else rng.sample(tails, min(len(tails), 4))):
             pq = rand_spec(rng.random() < 0.5)
+            if labelled(m0) and rng.random() < 0.7:
+                pq = {'smarts': rng.choice(stereo_sms)}
             steps = [['new', tin], rng.choice([['searched', pq], ['touch']]), ['touch']] + tail
             try:
                 fin = run_history(steps)
@@ -1708,6 +1735,15 @@ def stream_get_mapping(ctx):
             if stf != 'ok' or canon(rf) != canon(r0):
                 disagree(ctx, 'history/fresh-object-differs', f'{tag}: edited object gives {len(r0)} mappings, a fresh object with the '
                          f'same atoms and bonds {len(rf) if rf is not None else stf}', inp)
+        # a pattern that was only used and copied must answer like the freshly built pattern (marks, atoms and bonds carried over)
+        if isinstance(pspec, dict) and 'hist' in pspec and st0 == 'ok' and \
+                all(h[0] in ('new', 'use', 'copy', 'touch') for h in pspec['hist']):
+            stf, rf = outcome(lambda: real_mappings(run_history(pspec['hist'][:1]), t, False, scope))
+            ctx.count(('fresh-pattern', tag, target_key(tints), repr(pspec)), nontrivial=bool(r0))
+            ctx.dist('copied-pattern-vs-fresh-pattern')
+            if stf != 'ok' or canon(rf) != canon(r0):
+                disagree(ctx, 'history/copied-pattern-differs', f'{tag}: used-and-copied pattern gives {len(r0)} mappings, the fresh '
+                         f'pattern {len(rf) if rf is not None else stf}', inp)
         # the accelerated (bit-mask) matcher must return the same multisets wherever it is defined
         if is_query(p) and st0 == 'ok' and st1 == 'ok' and install_accelerated() and accel_domain(p, t) and \
                 (not quick_accel_skip(ctx, tag)):
@@ -2157,6 +2193,11 @@ def stream_match_stereo(ctx):
                     if (fm is None) != (not ref) or (fm is not None and fm not in ref):
                         disagree(ctx, 'get_fast_mapping/none-iff-no-isomorphism',
                                  f'{tag}: get_fast_mapping={"None" if fm is None else "a mapping"}, the reference has {len(ref)} isomorphisms', inp)
+        # get_fast_mapping on the pair itself (sizes may differ)
+        st_d, fm_d = outcome(lambda: p.get_fast_mapping(t))
+        if st_d == 'ok':
+            lines.append('FM ' + ' '.join(map(str, [len(p), len(t)] + L(p.smiles_atoms_order) + L(t.smiles_atoms_order) + [int(not (p != t))])))
+            meta.append(('FM', tag, inp, fm_d))
         if not ok:
             continue
         for af in (1, 0):
@@ -2500,5 +2541,6 @@ def generate(ctx):
     # The anchored matcher code has no literal tables. The compatibility model the driver uses for query patterns
     # (Model/QueryEq.lean, property C08) reads the regenerated element flags (AnyMetal) — refreshed here as well.
     # The SMARTS literals of the rule tables are re-extracted on every run by `repo_smarts()` (inputs, not model parts).
-    from ..gen import gen_query
-    return [gen_query.generate()]
+    # The stereo post-filter calls the sign-translation model of property C12, whose two literal tables are regenerated here too.
+    from ..gen import gen_query, gen_stereo
+    return [gen_query.generate(), gen_stereo.generate()[0]]
